@@ -65,7 +65,7 @@ func matrix(out *trace.W, r *rand.Rand, tid string, stats map[string]int) {
 		n++
 		st = w.Accrue(out, c)
 	}
-	for _, d := range []string{"a3", "cC", "cD", "cO", "cW", "cS"} {
+	for _, d := range []string{"a3", "cC", "cD", "cO", "cW", "cN", "cS"} {
 		x := int64(r.Intn(4))
 		step(d, Op{M: "delegate", V: "v0", Amt: 10 + x})
 		step(d, Op{M: "delegate", V: "v1", Amt: 8 + x})
